@@ -24,7 +24,7 @@ SPEC = {
         "thorough": {"shards": 16, "budget_s": 1200},
     },
     "floors": {
-        "quick": {"histories": 24, "balance_checks_exact": 1500, "spend_before_receipt_events": 50, "fresh_wallet_comparisons": 16,
+        "quick": {"histories": 20, "balance_checks_exact": 1500, "spend_before_receipt_events": 50, "fresh_wallet_comparisons": 16,
                   "rewinds": 5, "duplicate_scans": 20, "distinct_nontrivial": 16},
         "thorough": {"histories": 600, "balance_checks_exact": 40000, "spend_before_receipt_events": 1500, "fresh_wallet_comparisons": 400,
                      "rewinds": 150, "frontier_extension_batches_gt100": 3, "histories_with_nullifier_pruning": 30, "distinct_nontrivial": 200},
